@@ -37,7 +37,7 @@ def run(ctx):
             if it % 4 == 0:
                 # (the units are cycled, not drawn: the smallest ones are where absolute tolerances bite)
                 SC = (F(1, 50000), F(1, 20000), F(1, 5000), F(1, 200), F(1000))
-                (va, vb), unit = impl.scaled_family(ctx, 2, pinv=0.3, force=SC[(it // 4) % len(SC)])
+                (va, vb), unit = impl.scaled_family(ctx, 2, pinv=0.3, force=SC[(it // 4) % len(SC)], crossing=True)
             else:
                 va, vb = impl.leaf_family(ctx, 2, pinv=0.3)
             A, B = impl.poly(va), impl.poly(vb)
